@@ -291,13 +291,15 @@ def specRun (r : RunIn) (o : PrepOut) : Bool :=
 /-- the run stops before it ever looks at the output directory -/
 def stopsEarly (o : RunOpts) : Bool :=
   o.listPlugins || o.checkPrereqsOnly || !o.prereqsOk || !o.optionsValid || !o.anyModule
+    || (readData o.input).isSome
 
 def earlyResult (o : RunOpts) : Option Exn × Option Nat :=
   if o.listPlugins then (none, some 0)
   else if o.checkPrereqsOnly then (none, some (if o.prereqsOk then 0 else 1))
   else if !o.prereqsOk then (some "RuntimeError", none)
   else if !o.optionsValid then (none, some 1)
-  else (some "ValueError", none)
+  else if !o.anyModule then (some "ValueError", none)
+  else (readData o.input, none)
 
 def Ev.isProfiling : Ev → Bool
   | .openW n => n == profBinName || n == profTxtName
